@@ -22,7 +22,7 @@ CONSTANTS
     Sources,        \* source file paths (relative to the build dir)
     Opts,           \* option values that change the graph (e.g. "clip", "noclip")
     WorldOf,        \* [<<present set, opt>> -> world id]   (B3)
-    Edges,          \* [world id -> [output -> [ins, reads, h, sem, deps]]]   (B3)
+    Edges,          \* [world id -> [output -> [ins, trig, reads, h, sem, deps, tdeps]]]   (B3)
     Toml,           \* [world id -> set of [path, id]] files the driver writes on every run   (B3)
     Fonts,          \* [world id -> set of font outputs]
     MaxOps, MaxFaults, MaxVer,
@@ -66,12 +66,14 @@ Del(f, p) == [q \in DOMAIN f \ {p} |-> f[q]]
 \* themselves outputs of an edge).  Edges are identified by their output path.
 G == DOMAIN graph
 SeqSet(s) == {s[i] : i \in DOMAIN s}
-MaxIn(o) == LET ms == {fs[p].m : p \in SeqSet(graph[o].ins) \cap DOMAIN fs} IN
+\* `trig` / `tdeps`: the explicit and implicit inputs.  ORDER-ONLY inputs (in `ins` and `deps` only) are built before the
+\* edge but never make it dirty: neither by their own dirtiness nor by their mtime.
+MaxIn(o) == LET ms == {fs[p].m : p \in SeqSet(graph[o].trig) \cap DOMAIN fs} IN
             IF ms = {} THEN -1 ELSE CHOOSE x \in ms : \A y \in ms : y <= x
 
 RECURSIVE DirtyR(_)
 DirtyR(o) ==
-    \/ \E d \in graph[o].deps : DirtyR(d)                         \* an input is dirty
+    \/ \E d \in graph[o].tdeps : DirtyR(d)                        \* an (explicit or implicit) input is dirty
     \/ ~Has(o)                                                    \* output doesn't exist
     \/ (Has(o) /\ fs[o].m < MaxIn(o))                             \* output older than most recent input
     \/ o \notin DOMAIN log                                        \* command line not found in log
@@ -199,6 +201,7 @@ ToggleOpt(o) ==
 Init ==
     /\ present \in (SUBSET Sources) \ {{}}
     /\ opt \in Opts
+    /\ <<present, opt>> \in DOMAIN WorldOf     \* (a family may define only some source sets: masters of a variable font)
     /\ ver = [s \in Sources |-> 0]
     /\ fs = [s \in present |-> [m |-> 0, c |-> SrcTerm(s, 0)]]
     /\ log = << >> /\ graph = << >> /\ ph = "idle" /\ failed = FALSE /\ exit = -1
